@@ -267,6 +267,9 @@ func (s *Sorts) typeInv(v string, t types.Type, alloc string, depth int) []strin
 		}
 	case *types.Pointer, *types.Map:
 		r := []string{fmt.Sprintf("(>= %s 0)", v)}
+		if p, ok := u.(*types.Pointer); ok && isSplitTarget(p.Elem()) {
+			return r // may be the address of a split field: not below the allocation counter
+		}
 		if alloc != "" {
 			r = append(r, fmt.Sprintf("(< %s %s)", v, alloc))
 		}
